@@ -67,6 +67,11 @@ def cases(tier, seed):
             for algo in ("davidson", "arpack", "direct"):
                 for isec in (1, 2):
                     yield {"k": "tree", "parent": parent, "algo": algo, "isec": isec}
+                # two-component labels, and a purely virtual root above the tree
+                yield {"k": "tree", "parent": parent, "algo": algo, "isec": 4, "tfam": "two"}
+                if N <= 3:
+                    yield {"k": "tree", "parent": parent, "algo": algo, "isec": 1, "virtual_root": True}
+                    yield {"k": "tree", "parent": parent, "algo": algo, "isec": 4, "tfam": "two", "virtual_root": True}
 
 
 def build(fam, n, seed):
@@ -228,9 +233,12 @@ def run_tree(desc, seed):
     from renormalizer.tn import TTNS, TTNO, optimize_ttns
     parent = desc["parent"]
     N = len(parent)
-    fam = "elec"
+    fam = desc.get("tfam", "elec")
     basis = basis_list(fam, N)
     groups = [(i,) for i in range(N)]
+    if desc.get("virtual_root"):
+        parent = [-1] + [p + 1 for p in parent]
+        groups = [()] + groups
     secs = sectors(fam, N)
     sec = secs[min(desc["isec"], len(secs) - 1)]
     rs = env.rng(seed, ("c08tree", N))
@@ -241,9 +249,9 @@ def run_tree(desc, seed):
     order = list(basis)
     Hd = np.asarray(H.todense(order))
     mask = sector_projector([np.asarray(b.sigmaqn) for b in basis], sec)
-    wex = np.linalg.eigvalsh(((Hd + Hd.T) / 2)[np.ix_(mask, mask)])
+    wex = np.linalg.eigvalsh(((Hd + Hd.conj().T) / 2)[np.ix_(mask, mask)])
     hscale = max(1.0, np.abs(wex).max())
-    tag = f"[tree {parent} sector={sec} {desc['algo']}]"
+    tag = f"[tree {fam} {parent} groups={groups} sector={sec} {desc['algo']}]"
     nrun = 0
     for proc in ([[2, 0.4], [4, 0]], [[8, 0.4], [8, 0.2], [8, 0], [8, 0]]):
         env.reseed(seed, ("c08t", tuple(parent), tuple(sec)))
@@ -276,7 +284,7 @@ def run_tree(desc, seed):
         eh = np.real(np.vdot(v, Hd @ v)) / nv ** 2
         if eh < wex[0] - 1e-8 * hscale:
             add(viol, "C08:tree:state-energy-below-ground-state", f"{tag}: {eh} < {wex[0]}")
-        if len(proc) == 4:
+        if len(proc) == 4 and fam != "two":      # (two-component next-nearest model: DMRG stays in the block structure of its guess, see the chain part)
             if abs(E[-1] - wex[0]) > 1e-5 * hscale:
                 add(viol, f"C08:tree:not-exact-at-full-bond:{desc['algo']}", f"{tag}: reported {E[-1]!r}, exact {wex[0]!r}")
             if abs(eh - wex[0]) > 1e-5 * hscale:
